@@ -71,6 +71,7 @@ def impl_collection(texts, allow, strict, via='strings', keys=None):
     from mosromgr.moscollection import MosCollection
     out = {'err': None, 'reader_ids': [], 'ro_msg_id': None, 'run': None, 'text': None}
     tmp = None
+    impl.apply_cfg(impl.cfg_for(''.join(t[:80] for t in texts) + via + str(strict)))
     try:
         with warnings.catch_warnings():
             warnings.simplefilter('ignore')
@@ -399,6 +400,7 @@ def collection_stages(docs, strict):
     from mosromgr.moscollection import MosCollection, MosReader
     has_record = lambda ro: ro.xml.find('mosromgrmeta') is not None
     out = {}
+    impl.apply_cfg(impl.cfg_for(''.join(t[:80] for t in docs) + str(strict)))
     with warnings.catch_warnings():
         warnings.simplefilter('ignore')
         try:
@@ -560,6 +562,7 @@ def validate_obs(docs, allow):
     """Observation of MosCollection.from_strings under the current interpreter flags."""
     from . import impl
     from mosromgr.moscollection import MosCollection
+    impl.apply_cfg(impl.cfg_for(''.join(t[:80] for t in docs) + str(allow)))
     try:
         with warnings.catch_warnings():
             warnings.simplefilter('ignore')
